@@ -9,6 +9,8 @@ import (
 
 // impls maps a case command to the function running it on the real code.
 var impls = map[string]func(string) string{
+	"asm.run":        implAsmReplay,
+	"asm.clone":      implAsmClone,
 	"idx.decode":     implIdxDecode,
 	"idx.encode":     implIdxEncode,
 	"chunk.all":      implChunkAll,
